@@ -64,12 +64,25 @@ def _run_timeshift(W, data, shifts, order, varying=False):
         G = clone_module(D, dict(np=NumpyShim(), lagrange_taps=taps_exact))
         W.run.concretize_ints = True
         return G["timeshift"](data, shifts, order)
+    if isinstance(data, rnp.ndarray) and data.dtype.kind == "i":
+        return D.timeshift(data, shifts, order)              # an integer-dtype record is handed over as it is
     return D.timeshift(rnp.asarray(data, dtype=float), shifts, order)
 
 
-def ob_shift_const(W, n, order, smax):
+def _record(W, n, intrec):
+    """a record of n samples: float64 (symbolic reals) or, with intrec, of integer dtype (symbolic integers, e.g. raw ADC counts)"""
+    if not intrec:
+        return W.reals("x", n)
+    vals = [W.int("x%d" % i, lo=-1000, hi=1000) for i in range(n)]
+    if W.sym:
+        from symx.shim import IntNd
+        return oarr(vals).view(IntNd)
+    return rnp.array([int(v) for v in vals], dtype=rnp.int64)
+
+
+def ob_shift_const(W, n, order, smax, intrec=False):
     halfp = (order + 1) // 2
-    x = W.reals("x", n)
+    x = _record(W, n, intrec)
     s = W.real("s", lo=-smax, hi=smax)
     out = _run_timeshift(W, x, s, order)
     if not W.sym:
@@ -131,11 +144,11 @@ def ob_poly(W, n, order, si):
             W.goal("poly[%d]" % m, W.eq(out[m], poly(s + m)))
 
 
-def ob_varying(W, n, order, si_a, si_b):
+def ob_varying(W, n, order, si_a, si_b, intrec=False):
     """per-sample shifts (two different values over the record): each output equals the constant-shift result for its own shift
     wherever both stencils are interior"""
     halfp = (order + 1) // 2
-    x = W.reals("x", n)
+    x = _record(W, n, intrec)
     da, db = W.real("da", lo=0), W.real("db", lo=0)
     if W.sym:
         W.assume(da < 1); W.assume(db < 1)
@@ -216,6 +229,10 @@ def obligations(tier):
         obs.append({"name": "timeshift/poly/order%d/int%d" % (order, si), "fn": "ob_poly", "params": {"n": 8 if order <= 3 else 10, "order": order, "si": si}, "fork": True, "max_paths": 50, "weight": 8})
     for order, a, b in ((1, 0, 1), (3, -1, 0), (1, 2, -2)) + (((5, 0, 1),) if tier == "thorough" else ()):
         obs.append({"name": "timeshift/varying/order%d/int%d,%d" % (order, a, b), "fn": "ob_varying", "params": {"n": 7 if order <= 3 else 9, "order": order, "si_a": a, "si_b": b}, "fork": True, "max_paths": 100, "weight": 8})
+    # records of integer dtype (raw counts): the interpolated values are not integers and must not be cast back
+    obs.append({"name": "timeshift/int-record/const/order1", "fn": "ob_shift_const", "params": {"n": 5, "order": 1, "smax": 3, "intrec": True}, "fork": True, "max_paths": 200, "weight": 8})
+    obs.append({"name": "timeshift/int-record/varying/order1", "fn": "ob_varying", "params": {"n": 6, "order": 1, "si_a": 0, "si_b": 1, "intrec": True}, "fork": True, "max_paths": 100, "weight": 8})
+    obs.append({"name": "timeshift/int-record/varying/order3", "fn": "ob_varying", "params": {"n": 7, "order": 3, "si_a": -1, "si_b": 0, "intrec": True}, "fork": True, "max_paths": 100, "weight": 8})
     for inplace in (False, True):
         for iname, idx in (("range", None), ("offset", [10, 11, 12, 13]), ("unsorted", [3, 0, 2, 1]), ("float", [0.5, 1.0, 1.5, 2.0])):
             obs.append({"name": "df_timeshift/%s/index-%s" % ("inplace" if inplace else "suffix", iname), "fn": "ob_df", "params": {"inplace": inplace, "index": idx}, "fork": True, "max_paths": 20})
